@@ -1,9 +1,9 @@
-\* thorough: F=5, all accepted inputs of 0..157 keys (crossing F, F^2, F^3), offending keys at every position
+\* thorough: F=5, all accepted inputs of 0..157 keys (crossing F, F^2, F^3), offending keys at every position (Reentrant is checked for F = 2, 3, 4 and the gap models only: its cost grows with N^2)
 SPECIFICATION Spec
 CONSTANTS F = 5
   Variant = "asCoded"
   Steps = {2}
   MaxN = 157
-INVARIANTS Valid Faithful FaithfulAnyReader Enumerates EarlyExit Reentrant ReadersAgree EmptyNoTree RejectsExactly MachineIsFunction TailShape NothingLost TailValid Bounded CapIsDead RootDepthPositive
+INVARIANTS Valid Faithful FaithfulAnyReader Enumerates EarlyExit ReadersAgree EmptyNoTree RejectsExactly MachineIsFunction TailShape NothingLost TailValid Bounded CapIsDead RootDepthPositive
 PROPERTIES Terminates
 CHECK_DEADLOCK FALSE
